@@ -37,7 +37,10 @@ def rand_records(rng, nrec=None, maxlen=300, allow_empty=False):
             n = 0
         name = rng.choice(["chr", "seq", "scaffold_", "c", "HAP1_SCAFFOLD_"]) + str(i + 1)
         desc = rng.choice([None, None, "some description", "len=5 x"])
-        recs.append({"name": name, "desc": desc, "seq": rand_residues(rng, n)})
+        seq = rand_residues(rng, n)
+        if rng.random() < 0.08:
+            seq = bytes(rng.choice(b"NNNn") for _ in range(n)) if rng.random() < 0.7 else bytes(rng.choice(b"RYKMSW") for _ in range(n))   # no ACGT at all
+        recs.append({"name": name, "desc": desc, "seq": seq})
     return recs
 
 
